@@ -475,6 +475,8 @@ import re as _re
 
 _RE_POW = _re.compile(r"(\d+)\s*\*\*\s*(\d+)(?:\s*\*\*\s*(\d+))?")
 _RE_NONFINITE = _re.compile(r"""float\(\s*['"]\s*[+-]?(?:inf|infinity)\s*['"]\s*\)|\d[eE]\+?(?:30[89]|3[1-9]\d|\d{4,})\b|\d{309,}|\*\*\s*\d{5,}|<<\s*\d{4,}|<<\s*10\s*\*\*""", _re.I)
+_RE_NONASCII_TARGET = _re.compile(r"^\s*[^\x00-\x7f\s][^=\n]*=")
+_RE_HEADER_LIKE = _re.compile(r"^\s*(?:if|elif|while)\s+.+:\s*$")
 _RE_TUPLE_ASSIGN = _re.compile(r"^\s*\(?\s*([A-Za-z_]\w*(?:\s*,\s*[A-Za-z_]\w*)+)\s*,?\s*\)?\s*=(?!=)\s*(.+?)\s*$")
 
 
@@ -555,6 +557,9 @@ def tags_of(text: str, python: bool) -> list[str]:
             tree = ast.parse(text)
         except Exception:
             return sorted(tags)
+        lines = text.split("\n")
+        if any(_RE_NONASCII_TARGET.match(x) for x in lines):     # (the ast normalises identifiers, so this one is textual)
+            tags.add("non-ascii-target")
         stack = [(tree, 0)]
         while stack:
             n, d = stack.pop()
@@ -571,11 +576,10 @@ def tags_of(text: str, python: bool) -> list[str]:
                     tags.add("starred-expression")
                 if isinstance(n.func, ast.Attribute) and n.func.attr == "write" and any(k.arg is not None for k in n.keywords):
                     tags.add("write-keyword-argument")
-            elif isinstance(n, (ast.Assign, ast.AugAssign, ast.AnnAssign)):
-                t = n.targets[0] if isinstance(n, ast.Assign) else n.target
-                first = next((x for x in ast.walk(t) if isinstance(x, ast.Name)), None)
-                if first is not None and not first.id.isascii():
-                    tags.add("non-ascii-target")
+            elif isinstance(n, (ast.Constant, ast.JoinedStr)) and getattr(n, "end_lineno", n.lineno) > n.lineno:
+                inner = lines[n.lineno:n.end_lineno]      # continuation lines of a string literal that spans lines
+                if any(_RE_HEADER_LIKE.match(x) for x in inner):
+                    tags.add("header-like-line-in-multiline-string")
             for ch in ast.iter_child_nodes(n):
                 stack.append((ch, d + 1 if isinstance(ch, ast.expr) else d))
     return sorted(tags)
